@@ -458,6 +458,158 @@ def decodeWith (look : Nat → Nat → Option Row) (cdna3 : Bool) (buf : List Na
 
 def decode (cdna3 : Bool) (buf : List Nat) : Outcome := decodeWith lookUp cdna3 buf
 
+/-! ## Spec-side encoder and expected instruction
+
+Field packing as in the ISA manuals ("Microcode formats": SOP2, SOPK, SOP1, SOPC, SOPP, VOP2, VOP1,
+VOPC, SMEM). Independent of `Gen.formats`: the encoding constants are written out here, so the
+round-trip theorem `decode_encode` also checks the regenerated format table against them. -/
+
+/-- an instruction description: format, opcode and the architected fields (only the fields of
+    `ft` are used); `lit` = the one 32-bit literal that follows the first dword, if any -/
+structure Desc where
+  ft : Nat
+  op : Nat
+  sdst : Nat := 0
+  ssrc0 : Nat := 0
+  ssrc1 : Nat := 0
+  simm16 : Nat := 0
+  src0 : Nat := 0
+  vsrc1 : Nat := 0
+  vdst : Nat := 0
+  sbase : Nat := 0
+  sdata : Nat := 0
+  imm : Nat := 0
+  glc : Nat := 0
+  offset : Nat := 0
+  lit : Option Nat := none
+deriving Repr, DecidableEq, Inhabited
+
+def bytes32 (w : Nat) : List Nat := [w % 256, w / 256 % 256, w / 65536 % 256, w / 16777216 % 256]
+
+/-- first dword -/
+def encWord (d : Desc) : Nat :=
+  if d.ft == FT_SOP2 then 0x80000000 + d.op * 2 ^ 23 + d.sdst * 2 ^ 16 + d.ssrc1 * 2 ^ 8 + d.ssrc0
+  else if d.ft == FT_SOPK then 0xB0000000 + d.op * 2 ^ 23 + d.sdst * 2 ^ 16 + d.simm16
+  else if d.ft == FT_SOP1 then 0xBE800000 + d.sdst * 2 ^ 16 + d.op * 2 ^ 8 + d.ssrc0
+  else if d.ft == FT_SOPC then 0xBF000000 + d.op * 2 ^ 16 + d.ssrc1 * 2 ^ 8 + d.ssrc0
+  else if d.ft == FT_SOPP then 0xBF800000 + d.op * 2 ^ 16 + d.simm16
+  else if d.ft == FT_VOP2 then d.op * 2 ^ 25 + d.vdst * 2 ^ 17 + d.vsrc1 * 2 ^ 9 + d.src0
+  else if d.ft == FT_VOP1 then 0x7E000000 + d.vdst * 2 ^ 17 + d.op * 2 ^ 9 + d.src0
+  else if d.ft == FT_VOPC then 0x7C000000 + d.op * 2 ^ 17 + d.vsrc1 * 2 ^ 9 + d.src0
+  else if d.ft == FT_SMEM then 0xC0000000 + d.op * 2 ^ 18 + d.imm * 2 ^ 17 + d.glc * 2 ^ 16 + d.sdata * 2 ^ 6 + d.sbase
+  else 0
+
+/-- second dword: the second half of an 8-byte format, or the literal -/
+def encSecond (d : Desc) : Option Nat :=
+  if d.ft == FT_SMEM then some d.offset else d.lit
+
+def encode (d : Desc) : List Nat :=
+  bytes32 (encWord d) ++ (match encSecond d with | some l => bytes32 l | none => [])
+
+/-- does the description need a literal dword (a source field says 255, or a VOP2 "K" opcode) -/
+def usesLit (d : Desc) : Bool :=
+  if d.ft == FT_SOP2 || d.ft == FT_SOPC then d.ssrc0 == 255 || d.ssrc1 == 255
+  else if d.ft == FT_SOP1 then d.ssrc0 == 255
+  else if d.ft == FT_VOP1 || d.ft == FT_VOPC then d.src0 == 255
+  else if d.ft == FT_VOP2 then d.src0 == 255 || isKOpcode d.op
+  else false
+
+/-- operand code fits its field and denotes an operand -/
+def codeOK (n bound : Nat) : Bool := decide (n < bound) && (getOperand n).isSome
+
+def fieldsOK (d : Desc) : Bool :=
+  if d.ft == FT_SOP2 then codeOK d.ssrc0 256 && codeOK d.ssrc1 256 && codeOK d.sdst 128
+  else if d.ft == FT_SOPK then codeOK d.sdst 128 && decide (d.simm16 < 65536)
+  else if d.ft == FT_SOP1 then codeOK d.ssrc0 256 && codeOK d.sdst 128
+  else if d.ft == FT_SOPC then codeOK d.ssrc0 256 && codeOK d.ssrc1 256
+  else if d.ft == FT_SOPP then decide (d.simm16 < 65536)
+  else if d.ft == FT_VOP2 then codeOK d.src0 512 && decide (d.vsrc1 < 256) && decide (d.vdst < 256)
+  else if d.ft == FT_VOP1 then codeOK d.src0 512 && decide (d.vdst < 256) && (d.op != 2 || (getOperand d.vdst).isSome)
+  else if d.ft == FT_VOPC then codeOK d.src0 512 && decide (d.vsrc1 < 256)
+  else if d.ft == FT_SMEM then
+    decide (d.sbase < 64) && codeOK d.sdata 128 && decide (d.imm < 2) && decide (d.glc < 2) &&
+    (if d.imm == 1 then decide (d.offset < 2 ^ 20) else decide (d.offset ≤ 101))
+  else false
+
+/-- well-formed description: the opcode is in the decode table for the format, every field fits
+    and every operand code denotes an operand, and there is a (32-bit) literal exactly when the
+    instruction uses one. There is room for one literal only, so "at most one literal" is built
+    into `Desc`; two scalar sources may both say 255 and then share it. -/
+def wellFormed (d : Desc) : Bool :=
+  (lookUp d.ft d.op).isSome && fieldsOK d && (d.lit.isSome == usesLit d) &&
+  (match d.lit with | some l => decide (l < 2 ^ 32) | none => true)
+
+def opndOf (n : Nat) : Opnd := (getOperand n).getD default
+
+def withLit (l : Option Nat) (o : Opnd) : Opnd :=
+  match l with
+  | some v => setLit o v
+  | none => o
+
+/-- the instruction a well-formed description denotes (what decoding its encoding must give) -/
+def instOf (d : Desc) : Inst :=
+  match lookUp d.ft d.op with
+  | none => default
+  | some row =>
+    let i : Inst := { name := row.name, ft := d.ft, opcode := d.op,
+                      size := if (encSecond d).isSome then 8 else 4 }
+    if d.ft == FT_SOP2 then
+      let cnt (o : Opnd) : Opnd := if containsSub row.name "64" then o.setCount 2 else o
+      { i with src0 := some (cnt (withLit d.lit (opndOf d.ssrc0))),
+               src1 := some (cnt (withLit d.lit (opndOf d.ssrc1))),
+               dst := some (cnt (opndOf d.sdst)) }
+    else if d.ft == FT_SOPK then
+      { i with simm16 := some (.int 0 d.simm16), dst := some (opndOf d.sdst) }
+    else if d.ft == FT_SOP1 then
+      { i with src0 := some (withLit d.lit (with64 row.src0W (opndOf d.ssrc0))),
+               dst := some (with64 row.dstW (opndOf d.sdst)) }
+    else if d.ft == FT_SOPC then
+      { i with src0 := some (withLit d.lit (opndOf d.ssrc0)), src1 := some (withLit d.lit (opndOf d.ssrc1)) }
+    else if d.ft == FT_SOPP then
+      let i := { i with simm16 := some (.int 0 d.simm16) }
+      if d.op == 12 then { i with vmcnt := d.simm16 % 16, lkgmcnt := d.simm16 / 256 % 32 } else i
+    else if d.ft == FT_VOP2 then
+      let i := { i with src0 := some (withLit d.lit (opndOf d.src0)), src1 := some (vreg d.vsrc1 d.vsrc1 0),
+                        dst := some (vreg d.vdst d.vdst 0) }
+      if isKOpcode d.op then { i with imm := true, src2 := some (.lit 0 (d.lit.getD 0)) } else i
+    else if d.ft == FT_VOP1 then
+      let s0 := withLit d.lit (with64 row.src0W (opndOf d.src0))
+      let dd := with64 row.dstW (if d.op == 2 then opndOf d.vdst else vreg (d.vdst + 256) d.vdst 0)
+      { i with src0 := some (if d.op == 15 then s0.setCount 2 else s0),
+               dst := some (if d.op == 4 || d.op == 16 then dd.setCount 2 else dd) }
+    else if d.ft == FT_VOPC then
+      { i with src0 := some (with64 row.src0W (withLit d.lit (opndOf d.src0))),
+               src1 := some (with64 row.src1W (vreg d.vsrc1 d.vsrc1 0)) }
+    else if d.ft == FT_SMEM then
+      let dt := opndOf d.sdata
+      let op := d.op
+      let dt :=
+        if op == 0 then dt.setCount 1
+        else if op == 1 || op == 9 || op == 17 || op == 25 then dt.setCount 2
+        else if op == 2 || op == 10 || op == 18 || op == 26 then dt.setCount 4
+        else if op == 3 || op == 11 || op == 19 || op == 27 then dt.setCount 8
+        else if op == 4 || op == 12 || op == 20 || op == 28 then dt.setCount 16
+        else dt
+      { i with glc := d.glc != 0, imm := d.imm != 0, base := some (sreg (d.sbase * 2) (d.sbase * 2) 2),
+               data := some dt,
+               offset := some (if d.imm != 0 then .int 0 d.offset else sreg d.offset d.offset 1) }
+    else i
+
+def formatByName (s : String) : Option Nat := (formats.find? (·.name == s)).map (·.ft)
+
+/-- `c04 enc|inst <format> k=v …` → description -/
+def parseDesc (fmt : String) (toks : List String) : Option Desc :=
+  match formatByName fmt, Util.kvNat? toks "op" with
+  | some ft, some op =>
+    let g (k : String) : Nat := (Util.kvNat? toks k).getD 0
+    some { ft := ft, op := op, sdst := g "sdst", ssrc0 := g "ssrc0", ssrc1 := g "ssrc1",
+           simm16 := g "simm16", src0 := g "src0", vsrc1 := g "vsrc1", vdst := g "vdst",
+           sbase := g "sbase", sdata := g "sdata", imm := g "imm", glc := g "glc", offset := g "offset",
+           lit := Util.kvHex? toks "lit" }
+  | _, _ => none
+
+
+
 /-! ## Canonical print (shared format with the harness) -/
 open Util
 
@@ -521,6 +673,14 @@ def handle (line : String) : String :=
     | some w => match matchFormat w with
       | some f => f.name
       | none => "err"
+    | none => "bad"
+  | "c04" :: "enc" :: fmt :: toks =>
+    match parseDesc fmt toks with
+    | some d => bytesHex (encode d)
+    | none => "bad"
+  | "c04" :: "inst" :: fmt :: toks =>
+    match parseDesc fmt toks with
+    | some d => if wellFormed d then "ok " ++ (instOf d).str else "illformed"
     | none => "bad"
   | ["c04", "nrows"] => toString (allRows.filter fun r => (lookUp r.ft r.opcode).map (·.name) == some r.name).length
   | _ => "bad"
